@@ -197,7 +197,7 @@ theorem C04_range_edges :
 
 /-! ### the pinned conversions (findings C04-1, C04-2) -/
 
-/-- C04-1: the mirror of the pinned `RBig::to_f64` rounds `(3·2^53+8)/3 = 2^53+2.67` to `2^53+4`
+/-- C04-2: the mirror of the pinned `RBig::to_f64` rounds `(3·2^53+8)/3 = 2^53+2.67` to `2^53+4`
     (twice rounded) while the nearest double is `2^53+2`; the pinned comparison therefore says `=:=`
     where the specification says `<`. -/
 theorem C04_pinned_rational_conversion_violates :
@@ -206,7 +206,7 @@ theorem C04_pinned_rational_conversion_violates :
     cmpSpec (.rat (3*2^53+8) 3) (.flt ⟨0x4340000000000002⟩) = .lt := by
   decide
 
-/-- C04-2: the mirror of the pinned `IBig::to_f64` (> 128 bits; `encode` drops one sticky bit) rounds
+/-- C04-1: the mirror of the pinned `IBig::to_f64` (> 128 bits; `encode` drops one sticky bit) rounds
     `2^130 + 2^77 + 2^76` (0.75 ulp above `2^130`) down to `2^130`, and is not even monotone:
     `2^130 + 2^77 + 1` is smaller but converts to the next double. -/
 theorem C04_pinned_integer_conversion_violates :
